@@ -43,6 +43,17 @@ STRENGTH = {
     "C17-m6": "missed at first; caught after WebSocket writes of 16384-65536 bytes",
     "C18-m5": "missed at first; caught after a connection that ends while it holds both filters of a colliding pair",
     "C18-m6": "missed at first; caught after the overlapping-filters scenario (a/ and a/b/, a/+/ and a/b/ on one connection, watchers on both)",
+    "C02-m7": "missed at first; caught after three filters of one connection in one bookkeeping bucket",
+    "C02-m8": "missed at first; caught after a link name used, registered again for another channel and used again",
+    "C07-m7": "missed at first; caught after subscriptions with a from / until window and no last option",
+    "C07-m8": "missed at first; caught after option values written with leading zeros and 0x prefixes",
+    "C08-m7": "missed at first; caught after a delivery whose socket write reports an error while the connection lives on (injected at the broker's end of the pipe)",
+    "C08-m8": "missed at first; caught after three filters of one connection in one bookkeeping bucket, ended by the connection",
+    "C09-m8": "missed at first; caught after brokers configured with limit.messageSize up to 2^30 receive a packet announcing 256 MiB",
+    "C10-m8": "missed at first; caught after a publisher that exceeds its read rate (20 / s) while writing 50 packets back to back",
+    "C15-m7": "rebased after the repairs in ssd.go; caught by the kill / restart cycles",
+    "C15-m8": "missed at first; caught after messages published 40 days ago with a ttl of one year",
+    "C18-m7": "caught because the harness run did not end in time (missing packets); no failing input shown",
     "C01-m6": "missed at first; caught after share groups of 129-300 members that are looked up, dissolved and followed by lookups of lone members",
     "C03-m5": "missed at first; caught after keys expiring at the edges of the 32-bit expiry field (2010, 2106-2146, clamped dates)",
     "C03-m6": "not seen by C03 / C14 (the alternate spelling decrypts to the same key); caught by C20 (the decoder must reject characters outside its alphabet)",
